@@ -79,8 +79,28 @@ def canon_leaf(t: Term) -> Tuple[Term, bool]:
     if t[0] == "not":
         l, p = canon_leaf(t[1])
         return l, not p
+    if t[0] == "call" and t[1] == ("glob", "bool") and len(t[2]) == 1:
+        return canon_leaf(t[2][0])
+    if t[0] == "call" and t[1] == ("glob", "len") and len(t[2]) == 1:
+        return t[2][0], True          # truthiness of len(x) is truthiness of x
     if t[0] == "cmp":
         op, a, b = t[1], t[2], t[3]
+        # emptiness tests: len(x) == 0, len(x) > 0, len(x) >= 1, len(x) != 0, 0 < len(x)
+        def _len(x):
+            return x[2][0] if x[0] == "call" and x[1] == ("glob", "len") and len(x[2]) == 1 else None
+        la, lb = _len(a), _len(b)
+        if la is not None and b[0] == "const" and b[1] in (0, 1):
+            k = b[1]
+            if (op, k) in (("==", 0), ("<", 1), ("<=", 0)):
+                return la, False
+            if (op, k) in (("!=", 0),):
+                return la, True
+        if lb is not None and a[0] == "const" and a[1] in (0, 1):
+            k = a[1]
+            if (op, k) in (("==", 0),):
+                return lb, False
+            if (op, k) in (("<", 0), ("<=", 1), ("!=", 0)):
+                return lb, True
         if op == "<":
             return ("cmp", "<", a, b), True
         if op == "<=":
@@ -115,6 +135,10 @@ def leaves(t: Term, truthy=None) -> List[Term]:
                 walk(y)
         elif x[0] == "ifexp":
             walk(x[1]); walk(x[2]); walk(x[3])
+        elif x[0] == "bag" and all(not e[3] for e in x[1]):
+            for e in x[1]:
+                for g in e[2]:
+                    walk(g[1])
         else:
             if truthy is not None and truthy(x) is not None:
                 return
@@ -139,6 +163,9 @@ def eval_leaves(t: Term, assign: Dict[Term, bool], truthy=None) -> bool:
         return any(eval_leaves(x, assign, truthy) for x in t[1])
     if k == "ifexp":
         return eval_leaves(t[2], assign, truthy) if eval_leaves(t[1], assign, truthy) else eval_leaves(t[3], assign, truthy)
+    if k == "bag" and all(not e[3] for e in t[1]):
+        # truthiness of a collection built from guarded elements: non-empty iff some guard holds
+        return any(all(eval_leaves(g[1], assign, truthy) == g[2] for g in e[2]) for e in t[1])
     if truthy is not None:
         v = truthy(t)
         if v is not None:
